@@ -15,7 +15,9 @@ import (
 	pb "github.com/libp2p/go-libp2p-kad-dht/pb"
 	record "github.com/libp2p/go-libp2p-record"
 	recpb "github.com/libp2p/go-libp2p-record/pb"
+	"github.com/libp2p/go-libp2p/core/event"
 	"github.com/libp2p/go-libp2p/core/host"
+	"github.com/libp2p/go-libp2p/core/network"
 	"github.com/libp2p/go-libp2p/core/peer"
 	"github.com/libp2p/go-libp2p/core/protocol"
 	"github.com/libp2p/go-libp2p/core/routing"
@@ -37,12 +39,38 @@ import (
 // reached. The validator here does not depend on the clock (time-dependent
 // verdicts are generated in the value-store scenario only; on a node C04 owns
 // them).
+//
+// The node's MODE is a drawn input: the property speaks of "a node" and of
+// "local puts", not of a server. A run draws server mode, client mode, or auto
+// mode (the node starts as a client and follows drawn local-reachability events
+// emitted on the event bus; up to three per run). Remote PUT_VALUE / GET_VALUE
+// requests exist only while the node has its stream handler registered (the
+// harness looks at the host's handler table, as a remote peer's protocol
+// negotiation would); in a client-mode run the drawn remote operations become
+// local ones. Local PutValue / GetValue are judged by the same rules in every
+// mode.
+//
+// Rules that look at the datastore itself instead of at the node's own reads
+// (c05Oracle.storedThroughout; a node that skips the read, or the store, on
+// some path is not excused by having looked at nothing):
+//
+//	local-put-not-refused      "a local PutValue is refused when a better value is already stored":
+//	                           the key held, from before the PutValue began until it returned, valid
+//	                           records ranked better than the put one, none of them max-age old when
+//	                           it returned (harness clock), no delete in between - the call must fail.
+//	unreadable-before-age-out  "an acknowledged put is immediately readable until it ages out": the key
+//	                           held such records throughout a local GetValue / a remote GET_VALUE
+//	                           (from the delivery of the request to the response) - the read must
+//	                           return a record. Every stored record was put there by an acknowledged
+//	                           or in-flight put of the run (stored-invalid, ack-without-write).
 func init() {
 	sim.Register(&sim.Scenario{Prop: "C05", Name: "dht-node", Weight: 3, Run: runC05Node,
 		Real: []string{"IpfsDHT in server mode: handleNewStream/handleNewMessage, handlePutValue, handleGetValue, PutValue, GetValue/SearchValue local read path, records.ValueStore incl. background sweep", "msgio framing"},
 		Stub: []string{"host + inbound streams (simhost.Fabric, scripted remote writers/readers)", "outbound RPCs (level-A sender, one honest scripted peer)", "datastore (simds: every operation parks)", "validator (harness rank validator)", "lock hand-over (scheduler-owned)"},
 		Faults: []string{"lock_contended", "time_advance", "probe_remote_put_ack", "probe_remote_put_refused", "probe_local_put_refused", "probe_msgkey_mismatch_rejected", "probe_remote_get_served", "probe_remote_get_expired", "probe_local_get", "probe_gc_delete", "probe_age_boundary_crossed",
-			"probe_put_sender_stamp_acked", "probe_put_other_key_value", "probe_receipt_fresh_read", "probe_receipt_stale_read"},
+			"probe_put_sender_stamp_acked", "probe_put_other_key_value", "probe_receipt_fresh_read", "probe_receipt_stale_read",
+			"probe_mode_client", "probe_mode_auto", "fault_reachability_change", "probe_auto_became_server", "probe_auto_back_to_client", "probe_client_mode_put_ack", "probe_client_mode_put_refused", "probe_client_mode_get",
+			"probe_better_stored_throughout_put", "probe_stored_throughout_local_get", "probe_stored_throughout_remote_get"},
 	})
 }
 
@@ -58,9 +86,12 @@ type c05nOp struct {
 	tag    string
 
 	started   bool
-	sentStep  int // remote: step at which the request bytes were completely delivered to the node
+	startStep int  // local: step at which the call began
+	noHandler bool // local: the node had no stream handler registered (client mode) when the call began
+	sentStep  int  // remote: step at which the request bytes were completely delivered to the node
 	done      bool
 	doneStep  int
+	doneAt    time.Duration // harness clock when the operation finished
 	err       error
 	lval      []byte      // lget result
 	resp      *pb.Message // remote: response (nil + reset => refused)
@@ -84,6 +115,12 @@ func runC05Node(s *sim.Sim) {
 	nRemotes := s.Range("remotes", 1, 3)
 	nOps := s.Range("ops", 2, 24)
 	keys := []string{"/v/a1", "/v/b1", "/v/c2"}[:s.Range("keys", 1, 3)]
+	modeName := []string{"server", "server", "client", "auto"}[s.Draw("mode", 4)]
+	modeOpt := map[string]dht.ModeOpt{"server": dht.ModeServer, "client": dht.ModeClient, "auto": dht.ModeAuto}[modeName]
+	reachLeft := 0
+	if modeName == "auto" {
+		reachLeft = s.Range("reach-events", 1, 3)
+	}
 
 	u := simnet.NewUniverse(uint64(s.Draw("universe", 1<<16)), nRemotes+1)
 	lookupPeer := u.Peers[nRemotes]
@@ -98,7 +135,7 @@ func runC05Node(s *sim.Sim) {
 
 	var snd *simnet.Sender
 	node, err := dht.New(h,
-		dht.ProtocolPrefix("/sim"), dht.Mode(dht.ModeServer), dht.BucketSize(4), dht.Concurrency(2), dht.Resiliency(1),
+		dht.ProtocolPrefix("/sim"), dht.Mode(modeOpt), dht.BucketSize(4), dht.Concurrency(2), dht.Resiliency(1),
 		dht.DisableAutoRefresh(), dht.Datastore(d), dht.Validator(record.NamespacedValidator{"v": rv}),
 		dht.MaxRecordAge(maxAge), dht.ValueGCInterval(gcEvery),
 		dht.WithCustomMessageSender(func(_ host.Host, _ []protocol.ID) pb.MessageSenderWithDisconnect {
@@ -129,8 +166,21 @@ func runC05Node(s *sim.Sim) {
 	})
 	settle()
 	const kadProto = protocol.ID("/sim/kad/1.0.0")
+	emReach, err := h.RealBus().Emitter(new(event.EvtLocalReachabilityChanged))
+	if err != nil {
+		panic(err)
+	}
+	defer emReach.Close()
+	switch modeName {
+	case "client":
+		s.Count("probe_mode_client")
+	case "auto":
+		s.Count("probe_mode_auto")
+	}
+	// serving: a remote peer can open a DHT stream to the node right now
+	serving := func() bool { return h.Handler(kadProto) != nil }
 
-	s.Summary["cfg"] = fmt.Sprintf("maxAge=%v gc=%v remotes=%d ops=%d keys=%d", maxAge, gcEvery, nRemotes, nOps, len(keys))
+	s.Summary["cfg"] = fmt.Sprintf("maxAge=%v gc=%v remotes=%d ops=%d keys=%d mode=%s reach=%d", maxAge, gcEvery, nRemotes, nOps, len(keys), modeName, reachLeft)
 
 	remotes := make([]*c05Remote, nRemotes)
 	for i := range remotes {
@@ -148,6 +198,10 @@ func runC05Node(s *sim.Sim) {
 			o.kind = "lput"
 		default:
 			o.kind = "rput"
+		}
+		if modeName == "client" {
+			// nobody can send this node a request: the writers and readers are local
+			o.kind = map[string]string{"rget": "lget", "lget": "lget", "rput": "lput", "lput": "lput"}[o.kind]
 		}
 		if o.kind == "rput" || o.kind == "lput" {
 			o.rank = s.Draw("rank", 6)
@@ -220,13 +274,13 @@ func runC05Node(s *sim.Sim) {
 		clients.Go(s, o.tag, func() (any, error) {
 			s.Park("client", o.tag, nil, o)
 			ctx := sim.WithTag(context.Background(), o.tag)
-			o.started, o.startedAt = true, s.Now()
+			o.started, o.startedAt, o.startStep, o.noHandler = true, s.Now(), s.Steps, !serving()
 			if o.kind == "lput" {
 				o.err = node.PutValue(ctx, o.key, value(o))
 			} else {
 				o.lval, o.err = node.GetValue(ctx, o.key, dht.Quorum(1))
 			}
-			o.done, o.doneStep = true, s.Steps
+			o.done, o.doneStep, o.doneAt = true, s.Steps, s.Now()
 			return nil, nil
 		})
 	}
@@ -327,6 +381,10 @@ func runC05Node(s *sim.Sim) {
 				}
 				gets := getsBetween(o.key, o.sentStep, o.doneStep)
 				rec := o.resp.GetRecord()
+				_, heldThroughout := or.storedThroughout(o.key, o.sentStep, o.doneStep, o.doneAt, "")
+				if heldThroughout {
+					s.Count("probe_stored_throughout_remote_get")
+				}
 				if rec != nil {
 					s.Count("probe_remote_get_served")
 					if string(rec.GetKey()) != o.key {
@@ -354,6 +412,11 @@ func runC05Node(s *sim.Sim) {
 						s.Violate("served-not-stored", "GET_VALUE %s served a record that was not the stored, valid, unexpired content at any of its datastore reads", o.key)
 					}
 				} else {
+					// the datastore itself: the key held valid, un-aged records from
+					// before the request reached the node until the response left it
+					if heldThroughout {
+						s.Violate("unreadable-before-age-out", "GET_VALUE %s served nothing although the datastore held, from before the request was delivered until the response, valid records for the key that the node had received less than the max age %v before (harness clock); the handler read the key %d times", o.key, maxAge, len(gets))
+					}
 					// harness clock: every read of the key in the window saw a valid
 					// record the node had received less than the max age before
 					allFresh := len(gets) > 0
@@ -418,8 +481,34 @@ func runC05Node(s *sim.Sim) {
 						s.Violate("local-put-not-refused", "local PutValue %s rank %d succeeded although a better unexpired value was stored when it looked", o.key, o.rank)
 					}
 				}
+				// the same, judged on the datastore itself (whether or not the call looked)
+				if o.flavor == "valid" {
+					if worst, ok := or.storedThroughout(o.key, o.startStep, o.doneStep, o.doneAt, "@"+o.tag); ok && worst > o.rank {
+						s.Count("probe_better_stored_throughout_put")
+						if o.noHandler {
+							s.Count("probe_client_mode_put_refused")
+						}
+						if o.err == nil {
+							s.Violate("local-put-not-refused", "local PutValue %s rank %d returned nil although the datastore held, from before the call until its return, valid records of rank >= %d for the key, none of them max-age (%v) old (harness clock); the call read the key %d times (node serving=%v when it began)", o.key, o.rank, worst, maxAge, len(getsTagged(mine)), !o.noHandler)
+						}
+					}
+				}
+				if o.err == nil && o.noHandler {
+					s.Count("probe_client_mode_put_ack")
+				}
 			case "lget":
 				s.Count("probe_local_get")
+				if o.noHandler {
+					s.Count("probe_client_mode_get")
+				}
+				// the datastore itself: valid, un-aged records under the key from before
+				// the call until its return
+				if _, ok := or.storedThroughout(o.key, o.startStep, o.doneStep, o.doneAt, "@"+o.tag); ok {
+					s.Count("probe_stored_throughout_local_get")
+					if errors.Is(o.err, routing.ErrNotFound) || (o.err == nil && o.lval == nil) {
+						s.Violate("unreadable-before-age-out", "local GetValue %s found nothing although the datastore held, from before the call until its return, valid records for the key that the node had received less than the max age %v before (harness clock) (node serving=%v when it began)", o.key, maxAge, !o.noHandler)
+					}
+				}
 				var first *simds.Rec
 				for _, r := range d.Log() {
 					if r.Tag == "@"+o.tag && r.Op == "get" {
@@ -473,13 +562,13 @@ func runC05Node(s *sim.Sim) {
 					continue
 				}
 				if r.cur != nil && !r.cur.done {
-					r.cur.resp, r.cur.done, r.cur.doneStep = m, true, s.Steps
+					r.cur.resp, r.cur.done, r.cur.doneStep, r.cur.doneAt = m, true, s.Steps, s.Now()
 					r.cur = nil
 				}
 			}
 			if reset || r.a.IsReset() {
 				if r.cur != nil && !r.cur.done {
-					r.cur.reset, r.cur.done, r.cur.doneStep = true, true, s.Steps
+					r.cur.reset, r.cur.done, r.cur.doneStep, r.cur.doneAt = true, true, s.Steps, s.Now()
 					r.cur = nil
 				}
 				r.a, r.b = nil, nil
@@ -497,6 +586,9 @@ func runC05Node(s *sim.Sim) {
 	allDone := func() bool {
 		for _, o := range ops {
 			if !o.done {
+				if (o.kind == "rput" || o.kind == "rget") && !o.started && !serving() && reachLeft == 0 {
+					continue // the node is a client for good: nobody can send it this request
+				}
 				return false
 			}
 		}
@@ -537,10 +629,31 @@ func runC05Node(s *sim.Sim) {
 			}
 		}
 		acts = append(acts, s.LockActions()...)
-		// remote requests: one outstanding per remote
+		// auto mode: the host learns about its reachability
+		if reachLeft > 0 {
+			acts = append(acts, sim.Action{ID: "reach", Do: func() {
+				reachLeft--
+				to := []network.Reachability{network.ReachabilityPublic, network.ReachabilityPrivate, network.ReachabilityUnknown}[s.Draw("reach-to", 3)]
+				was := serving()
+				s.Count("fault_reachability_change")
+				if err := emReach.Emit(event.EvtLocalReachabilityChanged{Reachability: to}); err != nil {
+					panic(err)
+				}
+				s.Quiesce()
+				now := serving()
+				s.Tracef("reachability %v serving=%v", to, now)
+				if !was && now {
+					s.Count("probe_auto_became_server")
+				}
+				if was && !now {
+					s.Count("probe_auto_back_to_client")
+				}
+			}})
+		}
+		// remote requests: one outstanding per remote, only while the node serves
 		for i, r := range remotes {
 			i, r := i, r
-			if r.cur != nil {
+			if r.cur != nil || !serving() {
 				continue
 			}
 			for _, o := range ops {
@@ -649,3 +762,13 @@ func runC05Node(s *sim.Sim) {
 }
 
 var _ = peer.ID("")
+
+func getsTagged(rs []*simds.Rec) []*simds.Rec {
+	var out []*simds.Rec
+	for _, r := range rs {
+		if r.Op == "get" {
+			out = append(out, r)
+		}
+	}
+	return out
+}
